@@ -10,7 +10,6 @@ Section Keys.
   Variable enc : key -> bytes -> bytes -> bytes * bytes.
   Variable dec : key -> bytes -> bytes -> option bytes.
   Variable issued : key -> bytes -> bytes -> Prop.
-  Variable zenc : Z -> bytes -> bytes.
   Variable zdec : bytes -> option bytes.
   Variable kdf : password -> bytes -> key.
   Variable mk_ser : key -> bytes.
